@@ -142,7 +142,9 @@ def gen_response(rng, allow=None, position='any'):
         fields.append(('Content-Length', '0'))
     elif framing in ('chunked', 'te+cl'):
         chunk_style = {'ext': rng.random() < 0.3, 'upper': rng.random() < 0.3, 'zeros': rng.random() < 0.2,
-                       'trailer': rng.choice([[], [], [('X-Trailer', 'v')], [('X-T1', 'a'), ('Expires', 'never')]])}
+                       'trailer': rng.choice([[], [], [('X-Trailer', 'v')], [('X-T1', 'a'), ('Expires', 'never')],
+                                              # a folded trailer field whose continuation line holds white space only (obs-fold)
+                                              [('X-Folded', 'first\r\n \r\n\tlast'), ('X-After', 'yes')], [('X-F', 'a\r\n\t')]])}
         fields.append(('Transfer-Encoding', 'chunked'))
         if framing == 'te+cl':
             fields.append(('Content-Length', str(rng.choice([0, 1, len(coded) + 5, 99999]))))
